@@ -158,6 +158,9 @@ pub fn run_history(rng: Rng, profile: Profile, opts: &HistOpts, out: &mut Outcom
         out.seen("kinds_sent", k.clone());
     }
     out.count("polls", rig.dx.polls);
+    for (k, v) in &rig.clauses {
+        out.count(&format!("observed: {}", k), *v);
+    }
     res.steps = rig.steps;
     res.panics = rig.dx.panics.clone();
     res.version_violations = rig.version_violations.clone();
@@ -499,6 +502,9 @@ pub fn run_fault(seed_rng: Rng, profile: Profile, plan: Option<FaultPlan>, out: 
     out.count("dropped_connection_detections", rig.zombie_detections);
     for k in &rig.kinds_delivered {
         out.seen("kinds_delivered", k.clone());
+    }
+    for (k, v) in &rig.clauses {
+        out.count(&format!("observed: {}", k), *v);
     }
     res.steps = rig.steps;
     res.panics = rig.dx.panics.clone();
